@@ -149,6 +149,11 @@ func c40Payload(d string) ([]byte, c40Views, bool) {
 	if d == "-" {
 		return nil, v, true
 	}
+	if d == "null" {
+		// the JSON literal null: every struct view unmarshals to zero values
+		v.termOK = true
+		return []byte("null"), v, true
+	}
 	if len(d) < 2 {
 		return nil, v, false
 	}
@@ -443,7 +448,11 @@ func (r *c40Runner) Step(op string) string {
 				}
 				return "notleader"
 			}
-			res, err = r.node.AppendMessageEvent(ctx, ev)
+			var panicked bool
+			res, err, panicked = c40NodeAppend(r.node, ctx, ev)
+			if panicked {
+				return "panic"
+			}
 		}
 		if err != nil {
 			return c40Err(err)
@@ -507,4 +516,20 @@ func c40Normalize(ev metadb.MessageEventAppend) (metadb.MessageEventAppend, bool
 		}
 	}
 	return ev, bad
+}
+
+// c40NodeAppend recovers a panic of the append path and reports it as an outcome of its own, so
+// that the model (which reproduces the nil-map panic of mergeMessageEventTerminalPayload on a
+// JSON `null` payload) and the judge can name it precisely.
+func c40NodeAppend(n *cluster.Node, ctx context.Context, ev metadb.MessageEventAppend) (res metadb.MessageEventAppendResult, err error, panicked bool) {
+	defer func() {
+		if e := recover(); e != nil {
+			if !strings.Contains(fmt.Sprint(e), "nil map") {
+				panic(e)
+			}
+			panicked = true
+		}
+	}()
+	res, err = n.AppendMessageEvent(ctx, ev)
+	return
 }
